@@ -136,7 +136,11 @@ func TestC16(t *testing.T) {
 		"(b) e2e: assembled decision+management service with secrets_reload_enabled, tokens over HTTP, key set from /.well-known/jwks, store replaced on disk and announced through the real fsnotify watcher; " +
 		"checked for pair consistency, claims, key-set content and real-time monotonicity of generations (a reload counts as done as soon as any operation shows it; a key set fetched after a token was received " +
 		"must contain that token's key). (c) one instance with several jwt finalizers (key ids shared between stores; certificates of the active keys that expire while the instance runs): every received token " +
-		"verifies against the key set fetched afterwards. Lock shims perturb the scheduler between critical sections; race detector on. " +
+		"verifies against the key set fetched afterwards. (d) generation histories contain generations that only re-label the active key of their predecessor (same key material under another id, with/without further keys); " +
+		"after the last reload of a signer history a new token must verify against the key set fetched after it and both must belong to the last generation. (e) storm histories: bursts of 2-3 atomic replacements " +
+		"(link + rename, alternating two generations, sometimes a store that must be rejected in the middle) arrive while the reload triggered by the previous replacement is still being processed (notifications delivered one " +
+		"after the other); every token/key-set pair taken while no reload was being processed (sequence counter around OnChanged) must verify, after quiescence token and key set belong to the last written generation. " +
+		"Lock shims perturb the scheduler between critical sections; race detector on. " +
 		"A history is non-trivial if at least one token operation overlapped a reload.")
 	r.Assume("key stores are replaced atomically (rename); truncating in-place rewrites and their crash are C19's subject",
 		"e2e: reloads are serialised by the reloader (next store written only after the previous one was observed in a key set or a received token)",
@@ -182,9 +186,9 @@ func TestC16(t *testing.T) {
 	}
 	jobs = append(jobs, job{"witness", 0, 0, 0, 0}, job{"twosigners", 0, 0, 0, 0}, job{"certexpiry", 0, 0, 0, 0})
 	// bursts of replacements arriving while a reload is being processed
-	nStorm, stBatch := r.Pick(60, 600), r.Pick(15, 50)
+	nStorm, stBatch := r.Pick(24, 600), r.Pick(8, 50)
 	for f, i := 0, 0; f < nStorm; f, i = f+stBatch, i+1 {
-		jobs = append(jobs, job{"storm", 900000 + f, min(stBatch, nStorm-f), 0, []int{0, 2, 4, 1}[i%4]})
+		jobs = append(jobs, job{"storm", 900000 + f, min(stBatch, nStorm-f), 0, []int{0, 2, 1, 4}[i%4]})
 	}
 	for f, i := 0, 0; f < nSigner; f, i = f+sBatch, i+1 {
 		// scheduler regimes: default GOMAXPROCS, 2 and 1 processors
@@ -437,6 +441,8 @@ func TestC16(t *testing.T) {
 	r.Require("signer_histories_ok", r.Counter("signer_histories_ok"), int64(nSigner*9/10))
 	r.Require("e2e_token_ops_overlapping_reload", r.Counter("e2e_token_ops_overlapping_reload"), int64(nE2E*3))
 	r.Require("e2e_histories_ok", r.Counter("e2e_histories_ok"), int64(nE2E/2))
+	r.Require("storm_replacements_during_reload_processing", r.Counter("storm_replacements_during_reload_processing"), int64(nStorm/4))
+	r.Require("signer_generations_relabelling_the_active_key", r.Counter("signer_generations_relabelling_the_active_key"), int64(nSigner/10))
 	r.End()
 }
 
